@@ -235,6 +235,16 @@ theorem checkPath_pathError (m : Mode) (a : Facts) (hst : a.statOk = a.ex) (h : 
   | pathError k =>
     simp [hp2, Out.good] at hg
     exact ⟨k, hg.1, hg.2, rfl⟩
+/-! ### absolute paths -/
+
+theorem isAbs_append {a b : P} (h : isAbs a = true) : isAbs (a ++ b) = true := by
+  cases a with
+  | nil => simp [isAbs] at h
+  | cons c t =>
+    by_cases hc : c = '/'
+    · subst hc; simp [isAbs]
+    · unfold isAbs at h; split at h <;> simp_all
+
 /-! ### the bracket -/
 
 mutual
